@@ -14,6 +14,7 @@
 -/
 import SemaModel.Base.DriverUtil
 import SemaModel.C02.Model
+import SemaModel.Compose.Driver
 namespace Sema.C02
 open Sema
 
@@ -157,5 +158,8 @@ def step (d : DSt) (line : String) : DSt × String :=
 
 end Sema.C02
 
-def Sema.C02.driverMain (stdin stdout : IO.FS.Stream) (_args : List String) : IO Unit :=
-  Sema.loopState stdin stdout Sema.C02.step {}
+/-- `semadriver C02` runs the C02 model; `semadriver C02 compose` answers the same op lines (and `searchx`)
+with the combined model of SemaModel/Compose (C01 point store + C02 indexes + C06 pipeline) -/
+def Sema.C02.driverMain (stdin stdout : IO.FS.Stream) (args : List String) : IO Unit :=
+  if args.head? == some "compose" then Sema.Compose.driverMain stdin stdout args.tail
+  else Sema.loopState stdin stdout Sema.C02.step {}
